@@ -272,9 +272,9 @@ def sampleRightShock (c : Consts α) (rhoR uR PR aR PRinv ustar Pstar dxdt : α)
 /-- head and tail of the right rarefaction (lines 421, 427) -/
 def headR (uR aR : α) : α := uR + aR
 def tailR (c : Consts α) (aR PRinv ustar Pstar : α) : α := ustar + aR * pow (Pstar * PRinv) c.gm1d2g
-/-- state inside the right fan (lines 436–439; also used by the vacuum samplers) -/
+/-- state inside the right fan (lines 436–439; `base` is clamped at zero, `std::max(0., …)`) -/
 def fanR (c : Consts α) (rhoR uR PR aR dxdt : α) (br : Nat) : Sol α :=
-  let base := c.tdgp1 - c.gm1dgp1 * (uR - dxdt) / aR
+  let base := amax 0.0 (c.tdgp1 - c.gm1dgp1 * (uR - dxdt) / aR)
   ⟨rhoR * pow base c.tdgm1, c.tdgp1 * (-aR + c.gm1d2 * uR + dxdt), PR * pow base c.tgdgm1, br⟩
 /-- star state behind a right rarefaction (lines 430–432) -/
 def starRarefaction (c : Consts α) (rho Pinv ustar Pstar : α) (br : Nat) : Sol α :=
@@ -302,7 +302,7 @@ def headL (uL aL : α) : α := uL - aL
 def tailL (c : Consts α) (aL PLinv ustar Pstar : α) : α := ustar - aL * pow (Pstar * PLinv) c.gm1d2g
 /-- state inside the left fan (lines 552–555) -/
 def fanL (c : Consts α) (rhoL uL PL aL dxdt : α) (br : Nat) : Sol α :=
-  let base := c.tdgp1 + c.gm1dgp1 * (uL - dxdt) / aL
+  let base := amax 0.0 (c.tdgp1 + c.gm1dgp1 * (uL - dxdt) / aL)
   ⟨rhoL * pow base c.tdgm1, c.tdgp1 * (aL + c.gm1d2 * uL + dxdt), PL * pow base c.tgdgm1, br⟩
 
 /-- `sample_left_rarefaction_wave` (line 534); 8 = left state, 9 = fan, 10 = star region -/
